@@ -15,6 +15,10 @@ CHECKS = {
          "Exploration with an independent oracle: the accepted language is taken from the published schema files at run time; all strings over a 15-symbol alphabet up to length 5/6 are fed to 9 reader entry points, plus grammar members around the int64 boundary; all writers are run over boundary/random int64 units × exponents 0-18 and read back. Decides accept/reject/value agreement on the strings and values executed; the short-string space is complete.",
          "Trusts Go regexp for the published pattern and math/big for values. Percentages: factor form and empty text are part of the accepted language (documented/tested behaviour); percentage magnitudes beyond 2^52/100 only need 'error or exact value'.",
          "DESIGN.md §4 C06"),
+ "C07": ("specification-reference + metamorphic monitor: c14n.CanonicalJSON run on every Unicode scalar, ordered key pairs, random value trees in 5 content-preserving encodings and on malformed inputs; output compared with an independent canonicaliser written from c14n/README.md, plus idempotence, parse-back, injectivity and json.Valid rejection oracles",
+         "Exploration with two independent oracles: (1) a reference canonicaliser written from the README operating on the generated value tree (never on the text), (2) reference-free relations (same bytes for 5 encodings, valid UTF-8 JSON, canon∘canon = canon, parse-back equals the content minus null members, no two contents share a form). Malformed, empty, truncated (every proper prefix) and trailing inputs must be rejected without a panic. Single-character strings/keys are exhaustive over all 1112064 scalar values.",
+         "Trusts encoding/json (Valid, decoding for parse-back), strconv shortest float digits and the reference in harness/internal/c14nref. -0.0 may render 0.0E0 or -0.0E0; U+FFFD strings may be rejected; integers beyond int64 / floats beyond float64 are outside the quantifier.",
+         "DESIGN.md §4 C07"),
 }
 
 NOT_YET = {}
